@@ -69,3 +69,68 @@ Proof.
     pose proof (all_some_all_ints vs) as H.
     destruct (all_some vs); [rewrite H|rewrite H]; reflexivity.
 Qed.
+
+(* ------------------------------------------------------------ _elementwise *)
+
+Lemma elem_typecheck_arity o ops :
+  elem_typecheck o ops = Some true -> arity_ok o (length ops) = true.
+Proof.
+  destruct o; simpl; intros H; try discriminate;
+  first [ inversion H as [H1]; apply andb_true_iff in H1; destruct H1 as [H1 _]; exact H1
+        | reflexivity
+        | destruct ops as [|a [|b [|c [|d ops]]]]; try discriminate; reflexivity ].
+Qed.
+
+Lemma operand_at_value_at en i ops args :
+  mapM (operand_at i) ops = Ok args ->
+  map (eval no_graph en) args = map (value_at en i) ops.
+Proof.
+  revert args; induction ops as [|v ops IH]; simpl; intros args H.
+  - inversion H; reflexivity.
+  - destruct (operand_at i v) as [e|] eqn:Ov; simpl in H; try discriminate.
+    destruct (mapM (operand_at i) ops) as [es|] eqn:M; simpl in H; try discriminate.
+    inversion H; subst args; simpl. rewrite (IH es eq_refl). f_equal.
+    destruct v as [e'|k s d]; simpl in *.
+    + inversion Ov; reflexivity.
+    + destruct (nth_error d i); inversion Ov; reflexivity.
+Qed.
+
+Lemma nth_error_seq0 n i : (i < n)%nat -> nth_error (seq 0 n) i = Some i.
+Proof.
+  intros H. rewrite (nth_error_nth' (seq 0 n) O) by (rewrite seq_length; exact H).
+  rewrite seq_nth by exact H. reflexivity.
+Qed.
+
+Theorem elementwise_spec o sh ops r :
+  wf_shape sh -> elementwise o sh ops = Ok r ->
+  exists data, r = VA (kind_of_op o) sh data /\ zlen data = shape_size sh /\
+    forall i, (i < length data)%nat ->
+      exists args, mapM (operand_at i) ops = Ok args /\
+        nth_error data i = Some (mk_node o args) /\
+        forall en, eval no_graph en (mk_node o args) = op_sem o (map (value_at en i) ops).
+Proof.
+  intros WF. unfold elementwise.
+  destruct (elem_typecheck o ops) as [[|]|] eqn:TC; try discriminate.
+  destruct (negb (forallb (shape_ok sh) ops)) eqn:SH; try discriminate.
+  match goal with |- context [mapM ?f ?l] => destruct (mapM f l) as [data|] eqn:M end;
+    simpl; try discriminate.
+  pose proof (mapM_ok_length _ _ _ M) as L. rewrite seq_length in L.
+  assert (LZ : zlen data = shape_size sh).
+  { unfold zlen. rewrite L. destruct sh as [n|h w]; simpl in *.
+    - apply Z2Nat.id; exact WF.
+    - apply Z2Nat.id. destruct WF; apply Z.mul_nonneg_nonneg; assumption. }
+  assert (PW : forall i, (i < length data)%nat ->
+      exists args, mapM (operand_at i) ops = Ok args /\
+        nth_error data i = Some (mk_node o args) /\
+        forall en, eval no_graph en (mk_node o args) = op_sem o (map (value_at en i) ops)).
+  { intros i Hi. rewrite L in Hi.
+    destruct (mapM_nth_error _ _ _ M i i (nth_error_seq0 _ _ Hi)) as [y [Fy Ny]].
+    destruct (mapM (operand_at i) ops) as [args|] eqn:MA; simpl in Fy; try discriminate.
+    inversion Fy; subst y. exists args. split; [reflexivity|]. split; [exact Ny|].
+    intros en. rewrite eval_mk_node, eval_node_op_sem.
+    - rewrite (operand_at_value_at en i ops args MA). reflexivity.
+    - rewrite map_length, (mapM_ok_length _ _ _ MA). apply elem_typecheck_arity; exact TC. }
+  destruct sh as [n|h w].
+  - intros H; inversion H; subst r. exists data. simpl in LZ. rewrite LZ. auto.
+  - destruct (zlen data =? h * w) eqn:E; intros H; inversion H; subst r. exists data. auto.
+Qed.
